@@ -695,7 +695,7 @@ def _build_physical_hamiltonian_triangular(point, max_deg: int) -> List[np.ndarr
 
     poly_linear = _polynomial_zero_list(max_deg, psi_table)
     _polynomial_add_inplace(poly_linear, poly_x, 0.5 - mu)
-    _polynomial_add_inplace(poly_linear, poly_y, - sgn * np.sqrt(3) / 2.0)
+    _polynomial_add_inplace(poly_linear, poly_y, sgn * np.sqrt(3) / 2.0)
     _polynomial_add_inplace(poly_H, poly_linear, 1.0)
 
     # Linear dot products with the primary offsets
